@@ -235,3 +235,18 @@ End Sparse.
 
 Definition smat_eq (A B : smatrix Q) : bool :=
   all2 (fun x y => Z.eqb (fst x) (fst y) && Qeq_bool (snd x) (snd y)) A B.
+
+(* ---- id-keyed elemental tables: where the rows a method computes are attached ----
+   convert_lte_* read the rows of an elemental attribute (in that attribute's own
+   order), compute one output row per input row and store them with update_data:
+   attached to the ids of the attribute they came from (by id), or positionally
+   to the mesh's element ids (self.elements.ids, whose order may differ). *)
+Definition table (X : Type) := list (Z * X).
+Fixpoint tlookup {X} (i : Z) (t : table X) : option X :=
+  match t with
+  | [] => None
+  | (j, x) :: r => if Z.eqb i j then Some x else tlookup i r
+  end.
+Definition attach {X Y} (by_id : bool) (element_ids : list Z) (f : X -> Y) (t : table X) : table Y :=
+  if by_id then map (fun ir => (fst ir, f (snd ir))) t
+  else combine element_ids (map (fun ir => f (snd ir)) t).
